@@ -32,6 +32,17 @@ Fixpoint check_all (elem : ty) (vs : list val) : res (list val) :=
       end
   end.
 
+(* what the replacer compiled from a captured value reproduces: the value without its
+   *ast.Object links (comment groups are already absent from the trees) *)
+Fixpoint strip (v : val) : val :=
+  match v with
+  | Ptr t x => if N.eqb t T_P_ast_Object then Nil t else Ptr t (strip x)
+  | Iface t x => Iface t (strip x)
+  | Struct t fs => Struct t (map strip fs)
+  | Slice t vs => Slice t (map strip vs)
+  | _ => v
+  end.
+
 Section Replace.
   Variable mk : N -> option mkind.            (* Meta.LookupVar *)
   Variable assoc_dots : N -> N.               (* dotAssoc: '+' dots id -> '-' dots id *)
@@ -52,7 +63,7 @@ Section Replace.
         | Some _ =>
             (* MetavarReplacer: a fresh copy of what the metavariable stood for *)
             match assoc name (d_mv d) with
-            | Some v => Ok v
+            | Some v => Ok (strip v)
             | None => Err (ENoMetavar name)
             end
         | None =>
@@ -67,6 +78,7 @@ Section Replace.
         end
     | Ptr tp ps =>
         let generic := fun (_ : unit) =>
+          if N.eqb tp T_P_ast_Object then Ok (Nil tp) else
           match inst ps 0 d with
           | Ok v => Ok (Ptr tp v)
           | Err e => Err e
